@@ -52,9 +52,9 @@ delivered twice is impossible, the third is still buffered. -/
 example :
     let s := run (init 2) [.send 0 7, .step 0, .step 0, .step 0, .step 0, .step 0, .ack 0,
                            .send 0 8, .step 0, .step 0, .step 0, .step 0, .step 0, .ack 0,
-                           .recv 1, .step 1, .step 1, .step 1, .step 1, .step 1, .ack 1,
+                           .recv 1, .step 1, .step 1, .step 1, .step 1, .step 1, .step 1, .ack 1,
                            .send 0 9, .step 0, .step 0, .step 0, .step 0, .step 0, .ack 0,
-                           .recv 2, .step 2, .step 2, .step 2, .step 2, .step 2]
+                           .recv 2, .step 2, .step 2, .step 2, .step 2, .step 2, .step 2]
     Reachable 2 s ∧ s.delivered = [(1, 0, 7), (2, 1, 8)] ∧ s.accepted = [7, 8, 9] ∧ s.tail = 3 ∧ s.head = 2
       ∧ s.buf (2 % s.N) = 9 ∧ s.thr 2 = .done (.got 8) := by
   refine ⟨⟨_, rfl⟩, ?_⟩; decide
